@@ -194,6 +194,8 @@ type Account struct {
 	events        []*types.Event
 	newestRecords map[types.ChangeLogType]uint32
 	suicided      bool // will be delete from the trie during the "save" phase
+	// state wiped by self-destructs, for reverting them
+	suicideBackups []*suicideBackup
 }
 
 func (a *Account) SetSingers(signers types.Signers) error {
@@ -408,13 +410,49 @@ func (a *Account) SetBalance(balance *big.Int) {
 
 func (a *Account) SetSuicide(suicided bool) {
 	if suicided {
+		// Keep what is wiped below and is not in the change log (the caches with the dirty entries of this block, the asset roots), so that the self-destruct can be reverted exactly
+		a.suicideBackups = append(a.suicideBackups, &suicideBackup{
+			storage:       a.storage,
+			assetCode:     a.assetCode,
+			assetId:       a.assetId,
+			assetCodeRoot: a.data.AssetCodeRoot,
+			assetIdRoot:   a.data.AssetIdRoot,
+			code:          a.code,
+			codeIsDirty:   a.codeIsDirty,
+		})
+		a.storage = NewStorageCache(a.db)
+		a.assetCode = NewStorageCache(a.db)
+		a.assetId = NewStorageCache(a.db)
+
 		a.SetBalance(new(big.Int))
 		a.SetCodeHash(common.Hash{})
 		a.SetStorageRoot(common.Hash{})
 		a.SetAssetCodeRoot(common.Hash{})
 		a.SetAssetIdRoot(common.Hash{})
+	} else if count := len(a.suicideBackups); count > 0 {
+		// the self-destruct is reverted. The balance, code hash and storage root are restored by the change log
+		backup := a.suicideBackups[count-1]
+		a.suicideBackups = a.suicideBackups[:count-1]
+		a.storage = backup.storage
+		a.assetCode = backup.assetCode
+		a.assetId = backup.assetId
+		a.data.AssetCodeRoot = backup.assetCodeRoot
+		a.data.AssetIdRoot = backup.assetIdRoot
+		a.code = backup.code
+		a.codeIsDirty = backup.codeIsDirty
 	}
 	a.suicided = suicided
+}
+
+// suicideBackup holds the account state which a self-destruct wipes without recording it in the change log
+type suicideBackup struct {
+	storage       *StorageCache
+	assetCode     *StorageCache
+	assetId       *StorageCache
+	assetCodeRoot common.Hash
+	assetIdRoot   common.Hash
+	code          types.Code // the code may be created in this block and not be saved yet
+	codeIsDirty   bool
 }
 
 func (a *Account) SetCodeHash(codeHash common.Hash) {
